@@ -314,6 +314,13 @@ structure IsRenaming (ρ : Ren) (P P' : Prog) (e e' : Nat) : Prop where
   canon : ∀ a a' b b', ρ.tuple.get a = some a' → ρ.tuple.get b = some b' →
     (P.canonOf a = P.canonOf b ↔ P'.canonOf a' = P'.canonOf b')
 
+/-- The strict form: the compatibility rows agree on **every** tag in the domain of ρ, present or
+    not. Under it execution commutes with no side condition on the run (`C10.run_commutes_strict`).
+    The validator reports for each pair whether the strict form holds (`strict=true`). -/
+structure IsRenamingStrict (ρ : Ren) (P P' : Prog) (e e' : Nat) : Prop extends IsRenaming ρ P P' e e' where
+  compat_all : ∀ f f' F, ρ.fn.get f = some f' → P.fns[f]? = some F → ∀ t, t ∈ isTypeOps F.instrs →
+    ∀ t', ρ.type.get t = some t' → ∀ c c', renameTag ρ c = some c' → P.isCompat t c = P'.isCompat t' c'
+
 /-! ## The validator (decides `IsRenaming` for a given ρ) -/
 
 /-- No two entries share a value ⇒ the map is injective on its domain. -/
@@ -417,6 +424,9 @@ def checks (ρ : Ren) (P P' : Prog) (e e' : Nat) : List (String × Bool) :=
     ("canon", canonOK ρ P P') ]
 
 def validateB (ρ : Ren) (P P' : Prog) (e e' : Nat) : Bool := (checks ρ P P' e e').all (·.2)
+
+/-- The additional check of the strict form. -/
+def strictB (ρ : Ren) (P P' : Prog) : Bool := ρ.fn.all (compatFnOK ρ P P' (tagPairs ρ))
 
 /-- Name of the first failing check (diagnostics only). -/
 def firstFailing (cs : List (String × Bool)) : Option String :=
